@@ -199,6 +199,8 @@ class Inotify:
             self._close_resources()
             raise
         self._moved_from_events: dict[int, InotifyEvent] = {}
+        # Watch descriptor of a moved directory, by the cookie of its IN_MOVED_FROM, until the move is resolved.
+        self._moved_from_wds: dict[int, int] = {}
 
     @property
     def event_mask(self) -> int:
@@ -262,15 +264,21 @@ class Inotify:
             if inotify_rm_watch(self._inotify_fd, wd) == -1:
                 Inotify._raise_error()
 
-    def remove_watches_under(self, path: bytes) -> None:
-        """Stops watching ``path`` and everything below it.
+    def remove_watches_under(self, moved_from_event: InotifyEvent) -> None:
+        """Stops watching the directory an unmatched IN_MOVED_FROM was read for, and everything below it.
 
         Used when a watched directory has left the monitored tree: its kernel
         watches follow the inode, so they would keep reporting changes under
-        the old path.
+        the old path. The directory is identified by the watch descriptor it had
+        when the event was read, because its path may have been rewritten since
+        (an ancestor was renamed).
         """
         with self._lock:
             if self._closed:
+                return
+            wd = self._moved_from_wds.pop(moved_from_event.cookie, None)
+            path = self._path_for_wd.get(wd)  # type: ignore[arg-type]
+            if path is None or self._wd_for_path.get(path) != wd:
                 return
             prefix = path + os.path.sep.encode()
             for watched_path in [p for p in self._wd_for_path if p == path or p.startswith(prefix)]:
@@ -369,7 +377,10 @@ class Inotify:
 
                 if inotify_event.is_moved_from:
                     self.remember_move_from_event(inotify_event)
+                    if inotify_event.is_directory and src_path in self._wd_for_path:
+                        self._moved_from_wds[cookie] = self._wd_for_path[src_path]
                 elif inotify_event.is_moved_to:
+                    self._moved_from_wds.pop(cookie, None)
                     move_src_path = self.source_for_move(inotify_event)
                     if move_src_path in self._wd_for_path:
                         moved_wd = self._wd_for_path[move_src_path]
